@@ -299,6 +299,55 @@ def build(name: str, P=None, W=None, extra=None):
 SEEDED = ("PCGrad", "Random", "GradDrop")
 
 
+# GradDrop's purity functions.  "ge" / "gt" are the 0/1-valued ones of the model (spec SymAgg!SymGDKeep: the aggregator is
+# deterministic with them); "id" is the documented default and is configured by OMITTING the argument; "cube" and "sqrt"
+# are increasing with f(0) = 0, f(1) = 1 (randomised: the model gives the two candidates of every mixed column).
+def _gd_ge(P):
+    return (P >= 0.5).to(P.dtype)
+
+
+def _gd_gt(P):
+    return (P > 0.5).to(P.dtype)
+
+
+def _gd_cube(P):
+    return P ** 3
+
+
+def _gd_sqrt(P):
+    return P.sqrt()
+
+
+GD_F = {"ge": _gd_ge, "gt": _gd_gt, "id": None, "cube": _gd_cube, "sqrt": _gd_sqrt}
+GD_RANDOMISED = ("id", "cube", "sqrt")
+
+
+def build_gd(f: str, leak_P=None, dtype=F64):
+    """GradDrop(f=<purity function>, leak=leak_P / 4); arguments that have their documented default are omitted."""
+    import torchjd.aggregation as A
+    kw = {}
+    if GD_F[f] is not None:
+        kw["f"] = GD_F[f]
+    if leak_P is not None:
+        kw["leak"] = torch.tensor(leak_P, dtype=dtype) / 4.0
+    return A.GradDrop(**kw)
+
+
+def gd_draw_gap(f: str, M: torch.Tensor, seed: int) -> float:
+    """Smallest |f(P) - U| over the non-zero columns of M for the draw U the call under `seed` will see (the same
+    torch.rand call re-done here).  Used ONLY to exclude exact ties f(P) = U (U = 0 on a column with f(P) = 0 included)
+    from the claims - a draw that is not reproduced here can only make this exclusion less effective."""
+    col_abs = M.abs().sum(dim=0)
+    nzc = col_abs > 0
+    if not bool(nzc.any()):
+        return 1.0
+    P = 0.5 * (1.0 + M.sum(dim=0)[nzc] / col_abs[nzc])
+    fP = P if GD_F[f] is None else GD_F[f](P)
+    torch.manual_seed(seed)
+    U = torch.rand(M.shape[1], dtype=M.dtype)[nzc]
+    return float((fP - U).abs().min())
+
+
 def call(agg, M: torch.Tensor, seed: int, weights: bool = False):
     """agg(M) under torch.manual_seed(seed); returns a tensor or the string 'raised:<Type>'."""
     try:
